@@ -246,7 +246,7 @@ def regenerate(ctx=None):
         items.append(f'  ⟨"{cls}", "{attr}", .{r["how"]}, {str(r["mutable"]).lower()}, {str(r["nested"]).lower()}⟩')
     L.append(",\n".join(items))
     L += ["]", "", "end Gen.CopySpec", ""]
-    common.write_generated("CopySpec.lean", "\n".join(L))
+    common.write_generated(common.LEAN / "CobraModel/Gen/CopySpec.lean", "\n".join(L))
     return {"rows": len(rows), "rules": rules}
 
 
